@@ -177,14 +177,17 @@ def cmpFields (op : CmpOp) (fields : List FieldE) : R (List CmpField) := do
   let xs ← fields.mapM (cmpField1 op)
   pure (xs.filterMap id)
 
+/-- one iteration of the per-field loop, where-clause side -/
+def cmpFieldBounds1 (op : CmpOp) (use : Bool) (w : WCB) (cf : CmpField) : WCB :=
+  let (w, u) := cf.f.h.cmp.selBounds op use w
+  let (w, u) := cf.f.h.pushBoundsToRaw u false (.cmp op) w
+  match cf.sel with
+  | .dflt => if u then w.pushField cf.f.field.ty else w
+  | _ => w
+
 /-- the per-field loop, where-clause side -/
 def cmpFieldsBounds (op : CmpOp) (fs : List CmpField) (use : Bool) (w : WCB) : WCB :=
-  fs.foldl (init := w) fun w cf =>
-    let (w, u) := cf.f.h.cmp.selBounds op use w
-    let (w, u) := cf.f.h.pushBoundsToRaw u false (.cmp op) w
-    match cf.sel with
-    | .dflt => if u then w.pushField cf.f.field.ty else w
-    | _ => w
+  fs.foldl (cmpFieldBounds1 op use) w
 
 inductive Source where
   | struct_ (name : String) (g : Generics) (fields : List FieldE)
